@@ -105,7 +105,11 @@ where
     o["nodes"] = json!(nodes);
     o["root"] = json!(it.id(&tree.root()));
     let mut proofs = Vec::new();
-    for i in 0..cap {
+    // query order: begin with the position asked last in the previous observation and end with a varying
+    // one, so that a one-entry memo inside the backend is exercised (same position asked twice in a row
+    // with a mutation in between)
+    let order = crate::util::proof_order(cap);
+    for i in order {
         let mut p = json!({"i": i});
         match tree.proof(i) {
             Err(_) => {
@@ -153,6 +157,7 @@ where
         }
         proofs.push(p);
     }
+    proofs.sort_by_key(|p| p["i"].as_u64().unwrap());
     o["proofs"] = json!(proofs);
     o["proof_oob"] = json!(if tree.proof(cap).is_err() { "err" } else { "ok" });
     o
